@@ -28,7 +28,12 @@ use crate::model::{self, RefEntry, ScanCfg, Status, Stop};
 const CAT_NAMES: &[&str] = &[".", "t.", "a.t.", "b.a.t.", "u."];
 const CAT_CLASSES: &[u16] = &[1, 3, 65280];
 
-const QNAMES: &[&str] = &[".", "t.", "T.", "a.t.", "A.T.", "b.a.t.", "x.a.t.", "x.B.a.t.", "c.t.", "at.", "u.", "U.", "x.u.", "v."];
+/// The last five are label-boundary confusers: they end, octet for octet,
+/// with a catalog name's wire form although they are not below it (`x\001t.`
+/// is the single label 'x' 01 't').
+const QNAMES: &[&str] = &[
+    ".", "t.", "T.", "a.t.", "A.T.", "b.a.t.", "x.a.t.", "x.B.a.t.", "c.t.", "at.", "u.", "U.", "x.u.", "v.", "x\\001t.", "w.x\\001T.", "x\\001a.t.", "y\\001a\\001t.", "x\\001b.a.t.",
+];
 const QTYPES: &[u16] = &[t::A, t::SOA, t::TXT, t::TSIG, t::IXFR, t::AXFR, t::MAILB, t::MAILA, t::ANY];
 const QCLASSES: &[u16] = &[c::IN, c::CH, c::HS, c::NONE, c::ANY, 65280];
 
